@@ -57,6 +57,10 @@ checks = [
   "exhaustive enumeration of a finite configuration x position lattice (projection parameterisations x ellipsoid / datum / unit / prime-meridian options x positions spanning the usable region) on the real proj package; round trips judged against the tolerances of the statement, excesses classified by step-wise comparison with the vendored proj4js under node",
   "Every definition of the lattice (all 120 UTM zone/hemisphere values, six standard-parallel pairs per conic, every built-in ellipsoid and datum, spheres, feet, prime meridians, omitted optional parameters) is round-tripped at every lattice position from its own geographic base and from WGS84; complete over the lattice, silent between its points, which is all bounded enumeration can give for a numerical property over a continuum.",
   "Excesses whose every step agrees with proj4js 2.3.12 to 0.1 mm are inherited behaviour (known findings); the reference runs under node with committed golden values as fallback.", "4/C08"),
+ ("C09", "exploration", "E1",
+  "exhaustive enumeration of the C08 lattice on the real proj package against (a) the proj4js constant tables, (b) the vendored proj4js 2.3.12 evaluated under node for every definition x position x direction (incl. cross-datum projected pairs), (c) independently implemented Snyder / Krueger / Helmert reference formulas",
+  "Every table name, the exported fields of every lattice definition, and every lattice transformation (geographic base <-> projected, WGS84 -> projected / geographic, projected -> projected across datums) are compared with proj4js (0.1 mm / 1e-9 deg) and the forward projections with independent formulas (5 mm); complete over the lattice, silent between its points.",
+  "proj4js runs under node on the sources vendored in the repository (golden copies in ref/golden when node is absent); six classes of inherited or reference-side behaviour are listed as known findings.", "4/C09"),
  ("C11", MC, "E2",
   "explicit-state BFS over the real R-tree (deep clone per transition, canonical-state dedup) with structural invariants and brute-force SearchIntersect oracle in every state",
   "All insert/delete histories over a 6-8 object alphabet are explored to closure of the reachable state space for branching (2,4) and (2,5) (depth-bounded for (3,6)); neighbourhoods of height-3 seed trees to depth 5; every distinct state is checked against a multiset model with 104 query boxes and the balance/envelope/fan-out invariants read through an injected read-only walk.",
